@@ -99,10 +99,17 @@ func (check *Checker) ident(x *operand, e *ast.Ident, def *Named, wantType bool)
 			}
 
 			if check.decl.fdecl.Recv != nil {
+				// the receiver is `*T` or, written with a value receiver, `T`
 				recvTyp := check.decl.fdecl.Recv.List[0].Type
-				recvTypIdent := recvTyp.(*ast.StarExpr).X.(*ast.Ident)
+				if star, ok := recvTyp.(*ast.StarExpr); ok {
+					recvTyp = star.X
+				}
 				funcName := check.decl.fdecl.Name.Name
-				x.val = constant.MakeString(recvTypIdent.Name + "." + funcName)
+				if recvTypIdent, ok := recvTyp.(*ast.Ident); ok {
+					x.val = constant.MakeString(recvTypIdent.Name + "." + funcName)
+				} else {
+					x.val = constant.MakeString(funcName)
+				}
 			} else {
 				funcName := check.decl.fdecl.Name.Name
 				x.val = constant.MakeString(funcName)
